@@ -388,16 +388,53 @@ def snapshot_stmts(f):
 
 
 def signed_full_slices(stmt_lists):
-    """KNOWN REGION (finding C01-signed-full-slice): does the original design contain `v[0:len(v)]` with a
-    signed `v`?  `_ComplexSliceLowerer` drops such slices although a Migen slice is unsigned."""
+    """KNOWN REGION (finding C01-full-slice-dropped): does the original design contain a slice that
+    `_ComplexSliceLowerer` resolves to a node it covers exactly and whose unbounded value can be negative
+    (signed signal/constant, `~x`, `a - b`, `-x`)?  The lowerer drops such slices although a Migen slice is an
+    unsigned, zero-extending view."""
     from migen.fhdl.structure import _Slice, _Operator, _Assign, If, Case, Cat, Replicate
     from migen.fhdl.bitcontainer import value_bits_sign
     found = []
 
+    def exact(v):
+        """Is the unbounded simulator value of `v` always within [0, 2^len(v))?  (Then dropping a slice that
+        covers `v` exactly changes nothing.)"""
+        from migen.fhdl.structure import Signal, Constant
+        if isinstance(v, Signal):
+            return not v.signed
+        if isinstance(v, Constant):
+            return not v.signed and 0 <= v.value < (1 << v.nbits)
+        if isinstance(v, (_Slice, Cat, Replicate)):
+            return True
+        if isinstance(v, _Operator):
+            if v.op in ("<", "<=", "==", "!=", ">", ">="):
+                return True
+            if v.op in ("~", "-"):
+                return False
+            if v.op == "m":
+                return exact(v.operands[1]) and exact(v.operands[2])
+            if v.op in ("<<<", ">>>"):
+                return exact(v.operands[0]) and exact(v.operands[1])
+            return all(exact(o) for o in v.operands)
+        return False
+
     def ve(e):
         if isinstance(e, _Slice):
-            n, sgn = value_bits_sign(e.value)
-            if sgn and e.start == 0 and e.stop == n:
+            # follow the lowerer's own walk (nested slices, descent into Cat elements / Replicate copies): does it
+            # end on a signed node covered exactly by the slice (which is then dropped)?
+            from litex.gen.fhdl.verilog import _lower_slice_cat, _lower_slice_replicate
+            node, length, start = e, e.stop - e.start, 0
+            while isinstance(node, _Slice):
+                start += node.start
+                node = node.value
+                while True:
+                    node, start = _lower_slice_cat(node, start, length)
+                    former = node
+                    node, start = _lower_slice_replicate(node, start, length)
+                    if node is former:
+                        break
+            n, sgn = value_bits_sign(node)
+            if start == 0 and n == length and not exact(node):
                 found.append(e)
             ve(e.value)
         elif isinstance(e, _Operator):
@@ -677,6 +714,134 @@ def l2_cores(ctx, cycles, dis):
 
 
 # ----------------------------------------------------------------------------------------------------------
+# L3 (thin): memories.  The five port templates of litex/gen/fhdl/memory.py are tied by the independent golden
+# reading only (harness/c01lib.PyVSim reads the emitted text; the real Simulator runs the original design through
+# Migen's MemoryToArray); there is no Lean model of memories.
+# ----------------------------------------------------------------------------------------------------------
+
+def memory_builders(tier):
+    from migen import Module, Signal, Memory, ClockDomain
+    from migen.fhdl.specials import READ_FIRST, WRITE_FIRST, NO_CHANGE
+    from litex.soc.interconnect import stream, wishbone, csr_bus
+    from litex.soc.cores.code_8b10b import Decoder as Dec8b10b
+
+    class MemDut(Module):
+        """One memory, one read/write port (+ optionally a second read port).  Depths are powers of two (an
+        out-of-range address is clamped by the simulator's Array and is X in Verilog: outside the property).
+        `full_we`: the byte enables are driven all-or-nothing (NO_CHANGE with a partially set `we` is a listed
+        deviation: Migen simulates `If(~we, read)`, i.e. reads unless ALL enables are set, the text has `if (!we)`)."""
+        def __init__(self, width, depth, mode, gran, has_re, async_read, init, second_read_port=False, full_we=False):
+            self.specials.mem = mem = Memory(width, depth, init=init)
+            kw = dict(write_capable=True, we_granularity=gran, mode=mode, has_re=has_re)
+            if async_read:
+                kw = dict(write_capable=True, we_granularity=gran, async_read=True)
+            p = mem.get_port(**kw)
+            self.specials += p
+            self.adr, self.dat_w, self.dat_r = p.adr, p.dat_w, p.dat_r
+            if full_we:
+                self.we1 = Signal()
+                self.comb += p.we.eq(Replicate(self.we1, len(p.we)))
+            else:
+                self.we = p.we
+            if has_re and not async_read:
+                self.re = p.re
+            if second_read_port:
+                q = mem.get_port(async_read=False, mode=READ_FIRST)
+                self.specials += q
+                self.adr2, self.dat_r2 = q.adr, q.dat_r
+    from migen import Replicate
+    B = []
+    for mode, mname in ((WRITE_FIRST, "write-first"), (READ_FIRST, "read-first"), (NO_CHANGE, "no-change")):
+        B.append(("Memory/%s/8x8" % mname, lambda mode=mode: MemDut(8, 8, mode, 0, False, False, [1, 2, 3])))
+        B.append(("Memory/%s/16x4/gran8/re" % mname,
+                  lambda mode=mode: MemDut(16, 4, mode, 8, True, False, None, full_we=(mode == NO_CHANGE))))
+    B.append(("Memory/async/10x4", lambda: MemDut(10, 4, WRITE_FIRST, 0, False, True, [0x3ff, 5])))
+    B.append(("Memory/async/12x8/gran4", lambda: MemDut(12, 8, WRITE_FIRST, 4, False, True, None)))
+    B.append(("Memory/write-first+read-port/8x8", lambda: MemDut(8, 8, WRITE_FIRST, 0, False, False, None, True)))
+    B.append(("stream.SyncFIFO/8x4", lambda: stream.SyncFIFO([("data", 8)], 4)))
+    B.append(("stream.SyncFIFO/8x8/buffered", lambda: stream.SyncFIFO([("data", 8)], 8, buffered=True)))
+    B.append(("wishbone.SRAM/64B", lambda: wishbone.SRAM(64, init=[0x11223344, 0x55667788])))
+    B.append(("wishbone.SRAM/32B/ro", lambda: wishbone.SRAM(32, read_only=True, init=[1, 2, 3, 4])))
+    B.append(("8b10b.Decoder", lambda: Dec8b10b()))
+    B.append(("csr_bus.SRAM", lambda: csr_bus.SRAM(16, 0, bus=csr_bus.Interface(data_width=8, address_width=14))))
+    return B
+
+
+def run_memory_case(rng, name, mk, cycles, with_reset=False):
+    """Returns (cycles run, failing-input dict or None, status)."""
+    from migen.fhdl.tools import list_targets, list_special_ios
+    from netlist import Netlist
+    try:
+        fA, iosA, cdsA = L.prepare(mk(), allow_memories=True)
+        fB, iosB, cdsB = L.prepare(mk(), allow_memories=True)
+        cap = L.convert_capture(fB, iosB)
+        sigs = L.module_signals(cap)
+        ids = SigIds()
+        for s in sigs:
+            ids.get(s)
+        name_ids = {cap.ns.get_name(s): ids.get(s) for s in sigs}
+        mt = L.parse_module(cap.text, name_ids, allow_memories=True)
+        if mt.unsupported:
+            return 0, None, "unsupported: " + "; ".join(mt.unsupported[:2])
+        pv = L.PyVSim(mt, mt.name_ids, cap.result.data_files)
+        nl = Netlist(fA, clocks=tuple(cdsA))
+    except L.Unsupported as ex:
+        return 0, None, "unsupported: " + str(ex)[:100]
+    f = cap.f
+    targets = list_targets(f) | list_special_ios(f, ins=False, outs=True, inouts=True)
+    clks = [cd.clk for cd in f.clock_domains]
+    rsts = [cd.rst for cd in f.clock_domains if cd.rst is not None]
+    in_idx = [k for k, s in enumerate(iosB) if s not in targets and not any(s is c for c in clks)]
+    out_idx = [k for k, s in enumerate(iosB) if s in targets]
+    prev = None
+    trace = []
+    for t in range(cycles):
+        vals = stimulus(rng, [iosB[k] for k in in_idx], rsts, prev, t)
+        if not with_reset:
+            vals = [0 if any(iosB[k] is r for r in rsts) else v for k, v in zip(in_idx, vals)]
+        prev = vals
+        trace.append(vals)
+        for k, v in zip(in_idx, vals):
+            nl.set(iosA[k], v)
+            pv.state[ids.get(iosB[k])] = v & ((1 << iosB[k].nbits) - 1)
+        nl.settle()
+        pv.settle()
+        for k in out_idx:
+            a = nl.getu(iosA[k])
+            b = pv.state[ids.get(iosB[k])]
+            if a != b:
+                t0 = cap.text
+                return t, {"oracle": "golden-module (memory)", "module": name, "cycle": t,
+                           "port": cap.ns.get_name(iosB[k]), "simulator": a, "verilog": b,
+                           "inputs": [cap.ns.get_name(iosB[j]) for j in in_idx], "trace": trace[-6:],
+                           "verilog_text": t0[t0.index("// Specialized Logic"):][:2500]}, "ok"
+        nl.tick(tuple(cdsA))
+        pv.tick({ids.get(c) for c in clks})
+    return cycles, None, "ok"
+
+
+def l3_memories(ctx, cycles, dis):
+    tot = dict(cases=0, unsupported=0, cycles=0)
+    for name, mk in memory_builders(ctx.tier):
+        try:
+            n, bad, status = run_memory_case(ctx.rng, name, mk, cycles)
+        except Exception as ex:
+            traceback.print_exc()
+            dis.append(Dis("memory-exception", module=name, error=repr(ex)[:300]))
+            continue
+        tot["cases"] += 1
+        tot["cycles"] += n
+        if not status.startswith("ok"):
+            tot["unsupported"] += 1
+            ctx.cov.notes.append("memory case %s: %s" % (name, status))
+        if bad is not None:
+            dis.append(Dis("memory-template", **bad))
+    ctx.cov.add_cases("L3 memories: real Simulator (MemoryToArray) vs golden reading of the memory.py text (%d cases)"
+                      % tot["cases"], tot["cycles"], tot["cycles"], exhaustive=False)
+    ctx.log("L3 memories: %s" % tot)
+
+
+# ----------------------------------------------------------------------------------------------------------
 # Lowering index arithmetic: Lean lowerCat / lowerRep vs the real _lower_slice_cat / _lower_slice_replicate
 # ----------------------------------------------------------------------------------------------------------
 
@@ -855,6 +1020,8 @@ def correspond(ctx):
         l2_random(ctx, 90 if quick else 900, 40 if quick else 120, dis)
     if len(dis) <= 10:
         l2_cores(ctx, 250 if quick else 2500, dis)
+    if len(dis) <= 10:
+        l3_memories(ctx, 300 if quick else 3000, dis)
     # independent golden reading (also the failing-input oracle): must accept the unchanged tree
     t0 = time.time()
     n1, bad1 = oracle_expressions(ctx.rng, 1000 if quick else 10000)
